@@ -434,9 +434,53 @@ Val configuredLater(const Val &c)
 }
 }
 
+namespace {
+// many connections open at the same time on one TLS server (silent ones, that never send a byte), then a clear-text client and a TLS
+// client:  ( 9 n ) -> ( 9 bytesSeenByTheSilentOnes clearTextAnswered tlsAnswered handlerCalls )
+Val manyOpen(const Val &c)
+{
+    int n = int(c.at(1).asInt());
+    Log log;
+    QObject scope;
+    LogHandler handler(&log, &scope);
+    Server server(&handler);
+    server.setSslConfiguration(tlsConfig(0));
+    if (!server.listen(QHostAddress::LocalHost, 0)) throw std::runtime_error("nolisten");
+    std::vector<std::unique_ptr<QTcpSocket>> idle;
+    for (int i = 0; i < n; ++i) {
+        idle.emplace_back(new QTcpSocket);
+        idle.back()->connectToHost(QHostAddress::LocalHost, server.serverPort());
+    }
+    pumpTill([&]() { for (auto &s : idle) if (s->state() != QAbstractSocket::ConnectedState) return false; return true; }, 3000);
+    pumpMs(30);
+    QTcpSocket plain; QByteArray gotPlain;
+    QObject::connect(&plain, &QTcpSocket::readyRead, [&]() { gotPlain += plain.readAll(); });
+    plain.connectToHost(QHostAddress::LocalHost, server.serverPort());
+    pumpTill([&]() { return plain.state() == QAbstractSocket::ConnectedState; }, 1000);
+    plain.write("GET /h HTTP/1.1\r\nHost: h\r\n\r\n"); plain.flush();
+    pumpTill([&]() { return plain.state() == QAbstractSocket::UnconnectedState; }, 300);
+    QSslSocket client;
+    client.setPeerVerifyMode(QSslSocket::VerifyNone);
+    QByteArray got;
+    QObject::connect(&client, &QSslSocket::readyRead, [&]() { got += client.readAll(); });
+    client.connectToHostEncrypted("127.0.0.1", server.serverPort());
+    if (pumpTill([&]() { return client.isEncrypted() || client.state() == QAbstractSocket::UnconnectedState; }, 3000) && client.isEncrypted()) {
+        client.write("GET /h HTTP/1.1\r\nHost: h\r\n\r\n"); client.flush();
+        pumpTill([&]() { return client.state() == QAbstractSocket::UnconnectedState; }, 2000);
+    }
+    qint64 seen = 0;
+    for (auto &s : idle) seen += s->bytesAvailable();
+    for (auto &s : idle) s->abort();
+    plain.abort(); client.abort();
+    pumpMs(40);
+    return Val::List({Val::Int(9), Val::Int(seen), Val::Bool(!gotPlain.isEmpty()), Val::Bool(got.startsWith("HTTP/1.")), Val::Int(log.handler)});
+}
+}
+
 static Val run_tls(const Val &c)
 {
     int mode = int(c.at(0).asInt());
+    if (mode == 9) return manyOpen(c);
     if (mode == 8) return configuredLater(c);
     if (mode == 7) return serverHistory(c);
     if (mode == 5) return unwelcomeClient(c);
